@@ -87,6 +87,14 @@ def obligations(tier):
                          'six elements for the first (64) and for the second location (64)',
                   claim='the scope published afterwards is the one of the SECOND location: parses back to it, inside it, not inside a '
                         'location that specifies an element only the first one had'))
+    obs.append(Ob('C16.roundtrip.parse-results-independent', 'harness.C16', 'parse_results_independent', timeout=t,
+                  functions=F_PUB + ['sdc11073.location.SdcLocation.from_scope_string'], stubs=S_MDIB + [
+                      'library calls run with real interpreter semantics on concrete values chosen by symbolic selectors (CrossHair\'s '
+                      'tracer by-passes functools caches, so a memoised parser would be invisible under tracing)'],
+                  bounds='every present/absent pattern of the six elements (64) x 2 value styles x element changed (6) x changed / cleared '
+                         'x 1 or 2 later parses of the same string',
+                  claim='parsing a scope string again after the owner changed an earlier result yields the location the string spells, '
+                        'a new object each time; matching and filtering are unaffected'))
     diff_cases = [(d, 0) for d in range(6)] + ([(0, 1)] if quick else [(d, 1) for d in range(6)])
     for d, ident in diff_cases:
         obs.append(Ob(f'C16.published.differs.{EL[d]}{".root-only-id" if ident else ""}', 'harness.C16', 'published_differs',
